@@ -75,6 +75,9 @@ def lexical(ctx, conv):
             e = ctx.choice("e", ENTS)
             p = ctx.choice("p", list(range(n + 1)))
             t = s[:p] + e + s[p:]
+            # an escaped ampersand directly followed by an entity tail must stay literal ('&amp;quot;' is the text '&quot;')
+            if e == "&amp;" and L >= n + 10 and ctx.bool("tail"):
+                t = t[:p + len(e)] + ctx.choice("tl", ["quot;", "lt;"]) + t[p + len(e):]
         else:
             t = s
         return t, ("str", c10.ref_unescape(ctx, t))
